@@ -699,6 +699,11 @@ class TBRMatchedMarkets:
         design_diag = TBRMMDiagnostics(
             self.data.aggregate_time_series(group_star_trt[k]), self.parameters)
         design_diag.x = self.data.aggregate_time_series(group_star_ctl[k])
+        req_budget = design_diag.required_impact / self.parameters.iroas
+        if (budget_range is not None) and (self._constraint_not_satisfied(
+            req_budget, budget_range[0], budget_range[1])):
+          # Designs implying a budget out of range are dismissed.
+          continue
         design_score = TBRMMScore(design_diag)
         design = TBRMMDesign(
             design_score, group_star_trt[k], group_star_ctl[k],
